@@ -30,7 +30,12 @@ class InotifyBuffer(BaseThread):
         # XXX: Remove quotes after Python 3.9 drop
         self._queue = DelayedQueue["InotifyEvent | tuple[InotifyEvent, InotifyEvent]"](self.delay)
         self._inotify = Inotify(path, recursive=recursive, event_mask=event_mask, follow_symlink=follow_symlink)
-        self.start()
+        try:
+            self.start()
+        except Exception:
+            # The reader thread could not be started: do not leak the descriptors.
+            self._inotify.close()
+            raise
 
     def read_event(self) -> InotifyEvent | tuple[InotifyEvent, InotifyEvent] | None:
         """Returns a single event or a tuple of from/to events in case of a
